@@ -127,6 +127,17 @@ def _c02(names):
             v = _copy.deepcopy(x); v['name'] = 'C02_' + x['name']; out.append(v)
     return out
 UNITS += _c02(['subscribe_check_ready', 'co_await_suspend', 'co_await_suspend_fn', 'co_sync'])
+# async<T>::start(promise&) is a resolver like any other caller of the promise: it must take the right to resolve by the atomic claim and start the
+# coroutine only when the claim succeeded - a validity test followed by an unchecked claim lets a competing resolver win as well (two winners; seeded
+# change C01-6).  async<int>::start_promise is under contract in C04; re-run here.
+def _c04_01(names):
+    s = _ilu.spec_from_file_location('c01_c04', _os.path.join(_os.path.dirname(_os.path.dirname(_os.path.abspath(__file__))), 'C04', 'units.py')); m = _ilu.module_from_spec(s); s.loader.exec_module(m)
+    out = []
+    for x in m.UNITS:
+        if x['name'] in names:
+            v = _copy.deepcopy(x); v['name'] = 'C04_' + x['name']; out.append(v)
+    return out
+UNITS += _c04_01(['as_start_promise'])
 META = dict(
     level='proof',
     level_text='For every value type of the quantifier - int, void, a move-only type (deleted copy, int + moved-from flag), a reference type (int&), an instance-counted type (all constructors / the destructor counted) - promise<T>::claim, set_value / operator()(value) [for the counted type: by copy, by move and in place from an int], set_value(drop), set_exception, ~promise, future<T>::future(), get_promise, value() (complete outcome map incl. the exception types thrown) and ~future are each verified against a contract taken from the property statement (additionally for int and void: promise(promise&&), operator=(promise&&), operator bool, has_value().await_resume; for int: ready/pending/initialized), thread-modularly: every atomic instruction runs through protocol-F primitives that first let the environment act (another caller may take the right to resolve at any instant, other threads may subscribe, another winner may resolve) and then check the step against the protocol (only the token holder marks the future ready, never twice, never a plain store on a shared cell). Success <=> this call took the token and swung the slot; the payload at the instant of resolution and at return is exactly the argument (int: the value; void: the tag; move-only: the integer carried, stored object not moved-from, the argument moved-from; reference: the identity of the referenced object, the object untouched; counted: the integer carried, exactly one instance constructed and none destroyed at both instants); failure leaves no trace (no RMW on the slot, payload untouched, empty suspend point, a move-only argument is NOT moved from, nothing constructed or destroyed); a destroyed armed promise resolves to no-value; value() maps no-value to await_canceled_exception and a stored value to the stored object itself (reference: the object the winner referred to); ~future destroys the stored value exactly once and only if one was constructed. The payload-independent members of the other value types run under the SAME contracts and harnesses as for int (type aliases re-bound per unit). The single-winner lemma is an unbounded loop over the claim primitive. Value type with a throwing constructor (c01_thr, nondeterministic flag): the clause "when a resolving call ends - by return or by exception - either the future is resolved or a promise still holds the right to resolve" FAILS on promise::set_value (claims before it constructs; finding C01-FINDING-throwing-ctor, native replay replay/c01_throwing_ctor.cpp, candidate fix specs/C01/fix_throwing_ctor.diff with which both units pass).',
@@ -135,3 +146,85 @@ META = dict(
     trusted_base=['protocol-F atomic primitives and environment model (lib/rt_atomic_protF.c)', 'payload snapshot hooks (lib/model_c01_payload.c)', 'abstract callees: awaiter::resume_chain_lk, suspend_point::suspend_now (recording stubs, specs/C01/f_spec.h)', 'exception model and exception_ptr reference counting stubs (lib/rt_core.c)'],
     assumptions=['rely/guarantee soundness: if every step of every thread conforms, every interleaving satisfies the protocol invariant (argued, DESIGN 3.5)', 'atomic RMWs on one location are totally ordered (C++ coherence)', 'value types: int, void, c01_mo (move-only), int& (reference), c01_cnt (instance-counted), c01_thr (constructor may throw) as defined in drivers/c01_types.cpp; instance counters < 10^6 (no wrap-around)', 'no exception is in flight / being handled when a resolver is called (cv_caught_n == 0 for the throwing-constructor units)'],
     explanation='see level_text')
+
+# ==================================================== W4 block: promise_with_default<int>, promise<T>::bind() ===========================================
+# ---- promise_with_default<T> (future.h): "If the promise is destroyed unresolved, the default value is set to the future".  The default is the
+# payload of the implicit resolution; C01: "the future's result ... is exactly the winner's payload".  Contracts: specs/C01/pwd_spec.h.
+PWD_T = dict(TYPES, PWD='cocls::promise_with_default<int>')
+PWD_SPEC = ['C01/f_spec.h', 'C01/h_f.c', 'C01/pwd_spec.h']
+_PWD = r'cocls::promise_with_default<int>::'
+def pwd_unit(name, alias, rx, **kw):
+    d = unit('pwd_' + name, alias, rx)
+    d.update(driver='c01_types.cpp', types=PWD_T, spec=PWD_SPEC, harness='h_pwd_' + name, timeout=300)
+    d.update(kw)
+    return d
+_PWD_DTOR = '^' + _PWD + r'~promise_with_default\(\)$'
+_PWD_MA = '^' + _PWD + r'operator=\(cocls::promise_with_default<int>&&\)$'
+UNITS += [
+    pwd_unit('ctor', 'pwd_ctor', '^' + _PWD + r'promise_with_default<int&>\(cocls::promise<int>&&, int&\)$'),
+    pwd_unit('dtor', 'pwd_dtor', _PWD_DTOR),
+    pwd_unit('move_ctor', 'pwd_move_ctor', '^' + _PWD + r'promise_with_default\(cocls::promise_with_default<int>&&\)$'),
+    # move assignment: two promises, two futures, sequential atomics (documented: an object being assigned to / moved from is not shared);
+    # everything below operator= is the real code, only the walk over the detached waiters is the recording stub of f_spec.h
+    pwd_unit('move_assign', 'pwd_move_assign', _PWD_MA, lib=['rt_core.c', 'rt_atomic_seq.c'], defines=DEFS + ['PWD_SEQ 1'],
+             replay=dict(src='c01_pwd_move_assign.cpp', mode='assign', flags=['-DNDEBUG', '-g'])),
+    # the same scenario end to end: a = std::move(b); then a is destroyed: b's future must receive b's default
+    pwd_unit('assign_then_destroy', 'pwd_move_assign', _PWD_MA, roots=[_PWD_MA, _PWD_DTOR], names={'pwd_move_assign': _PWD_MA, 'pwd_dtor_fn': _PWD_DTOR},
+             lib=['rt_core.c', 'rt_atomic_seq.c'], defines=DEFS + ['PWD_SEQ 1', 'PWD_DRIVE 1'], enforce=None, kind='lemma',
+             under_contract=['drive: promise_with_default<int>::operator=(promise_with_default&&) followed by ~promise_with_default()'],
+             replay=dict(src='c01_pwd_move_assign.cpp', mode='assign', flags=['-DNDEBUG', '-g'])),
+]
+
+# ---- promise<T>::bind(args...) (future.h): "Bind arguments but don't resolve yet. Return function, which can be called to resolve the future".
+# C01: binding moves the right to resolve into the closure (source disarmed, one owner); calling the closure is a resolver with the bound value
+# as payload (same outcome map as set_value); destroying an uncalled closure is the destruction of the promise inside (future -> no-value).
+# C20: no allocation in bind / call / destroy, for every size of the bound arguments (int, 64 bytes, 200 bytes).  Contracts: specs/C01/bind_spec.h.
+BIND_SPEC = ['C01/f_spec.h', 'C01/h_f.c', 'C01/bind_spec.h']
+_BIG_DEFS = lambda T: [_ST0, _EXC, 'CV_F_VALUE_AT(p) (((BIG *)&((FUT *)(p))->f1)->v)', 'CV_F_AUX0_AT(p) (((BIG *)&((FUT *)(p))->f1)->tail)', 'CV_REG_STACK 1', 'BIND_BIG 1']
+BIND_UNITS = []
+def _bind_units(sfx, T):
+    Tr = _rx(T)
+    bind = r'cocls::promise<%s>::bind<%s&>\(%s&\)' % (Tr, Tr, Tr)
+    rx_bind = bind + '$'                       # the return type is spelled `auto` today; a change may name it
+    rx_call = '^' + bind + r'::\{lambda\(\)#1\}::operator\(\)\(\)$'
+    rx_dtor = '^' + bind + r'::\{lambda\(\)#1\}::~bind\(\)$'
+    big = T != 'int'
+    common = dict(driver='c01_types.cpp', spec=BIND_SPEC, lib=(TLIBS if big else LIBS), defines=(_BIG_DEFS(T) if big else DEFS + ['BIND_INT 1']),
+                  types=_ttypes(T, **({'BIG': T} if big else {})), value_type=T, timeout=300)
+    out = []
+    for name, alias, rx, k in (('bind_' + sfx, 'bd_bind', rx_bind, 0), ('bind_%s_call' % sfx, 'bd_call', rx_call, 1), ('bind_%s_dtor' % sfx, 'bd_dtor', rx_dtor, 0)):
+        d = unit(name, alias, rx); d.update(common); d.update(harness='h_' + alias, ptypes={'CLOS': rx + '#%d' % k}, under_contract=[rx.strip('^$').replace('\\', '')])
+        out.append(d)
+    # drive through the extern "C" wrappers: the closure type is whatever bind() returns (parameter 0 of the wrapper)
+    W = dict(bd_drv_bind=r'^drv_bind_%s$' % sfx, bd_drv_call=r'^drv_bind_%s_call$' % sfx, bd_drv_dtor=r'^drv_bind_%s_dtor$' % sfx)
+    d = unit('bind_%s_drive' % sfx, 'bd_drv_bind', W['bd_drv_bind']); d.update(common)
+    d.update(roots=list(W.values()), names=W, harness='h_bd_drive', boundary=[RC_LK, SN, r'^std::bad_function_call::'],   # the last one: only if bind() returns a type-erased function object
+              enforce=None, kind='lemma', lib=['rt_core.c', 'rt_atomic_seq.c'], ptypes={'CLOS': W['bd_drv_bind'] + '#0'},
+             defines=[x for x in common['defines'] if not x.startswith('CV_F_')], cbmc_flags=['--sat-solver', 'cadical'],
+             under_contract=['drive: promise<%s>::bind -> closure() -> closure() -> ~closure / bind -> ~closure' % T])
+    out.append(d)
+    return out
+for _sfx, _T in (('int', 'int'), ('b64', 'c01_big64'), ('b200', 'c01_big200')): BIND_UNITS += _bind_units(_sfx, _T)
+UNITS += BIND_UNITS
+C20_BIND_UNITS = [u['name'] for u in BIND_UNITS]
+
+# ---- META for the W4 block
+META['level_text'] += (' promise_with_default<int> (specs/C01/pwd_spec.h; the default value is the payload of the implicit resolution by destruction): '
+    'constructor from (promise&&, default), move constructor and destructor are verified thread-modularly over the protocol-F primitives - the right to resolve leaves the source by the single-winner claim '
+    'and travels together with the default given for that future; an armed object that is destroyed resolves the future exactly once with exactly its default (at the instant of resolution and at return), '
+    'a disarmed one leaves no trace; no allocation. Move assignment (two promises, two futures, sequential atomics, real code of promise::operator= / set_value(drop) / claim / resolve underneath): '
+    'the overwritten future is resolved at once, exactly once (no-value or the target\'s own old default), the source\'s future is not resolved, the source is emptied, the target owns the source\'s future - '
+    'and the clause "together with the source\'s default" FAILS on the unchanged tree: operator= executes `def = std::move(def)` (finding C01-FINDING-pwd-self-move, obligation pwd_move_assign/postcondition.8 and '
+    'the end-to-end drive pwd_assign_then_destroy/assertion.5 "the future that b owned receives b\'s default value"; native replay replay/c01_pwd_move_assign.cpp: 111 instead of 222; candidate fix '
+    'specs/C01/fix_pwd_move_assign.diff `def = std::move(other.def)`, with which all five units pass and the 15 upstream tests pass). '
+    'promise<T>::bind(a) for T = int, a 64-byte and a 200-byte struct (specs/C01/bind_spec.h): bind() disarms the promise it is called on, the returned closure is the one owner of the right to resolve, '
+    'the argument is bound by value (first and last word observed), nothing is resolved; calling the closure is a resolver with the complete outcome map of set_value and the bound value as payload; '
+    'destroying the closure is the destruction of the promise inside (armed: no-value, once; disarmed: no trace); none of the three allocates (nor frees), for every bound size. '
+    'Per size a fixed-order drive through extern "C" wrappers (whatever type bind() returns): bind, [call, second call], destroy with the outcome of each step and no allocation.')
+META['level_note'] += (' promise_with_default: only T = int is instantiated; promise_with_default_v / _vp (default as template argument, defaulted move operations) are not covered; self-assignment (this == &other) is excluded by precondition; '
+    'the move-assignment unit and the drive pwd_assign_then_destroy use sequential atomics (an object that is assigned to or moved from is not shared). '
+    'bind(): one bound argument, passed as an lvalue (copied into the closure); closures are the lambda of future.h (type taken from the translated signature); std::tuple / std::apply / std::__invoke are translated through libstdc++ (plain forwarding code, no container). '
+    'The clauses naming the closure members are not compiled into the C20 run (C20 checks allocation only, whatever bind() returns); the bind_*_drive units are plain symbolic executions of ONE order each (kind lemma), not contracts.')
+META['trusted_base'] += ['sequential atomics (lib/rt_atomic_seq.c) for pwd_move_assign, pwd_assign_then_destroy and the bind_*_drive units']
+META['assumptions'] += ['promise_with_default: value type int; target and source of a move assignment are distinct objects, each either empty or owning its own pending future',
+                        'bind: bound payloads c01_big64 / c01_big200 (trivially copyable structs of 64 / 200 bytes, drivers/c01_types.cpp) and int']
